@@ -208,11 +208,14 @@ def r06_3(ctx):
     from ..inline import default_keep
     for f in F.find(crate=IM):
         b = f.built
-        if not b or not (f.file or "").endswith("subscriber.rs"):
+        if not b:
             continue
         root = root_fn(F, f)
-        if root in streams or not default_keep(root):
+        in_sub = (f.file or "").endswith("subscriber.rs")
+        if root in streams or (in_sub and not default_keep(root)):
             continue   # spliced into the streams above (private helper / closure of one)
+        if not in_sub and ((root.raw.get("self_ty") or "").startswith("vector::VectorDiff<") or root.raw.get("impl_trait")):
+            continue   # VectorDiff's own methods (map rebuilds a Reset from a Reset) and trait impls (Deserialize, Clone)
         for loc in reset_sites(b):
             n += 1
             facts = conds.bare(conds.dominating_facts(b, loc[0]))
